@@ -31,7 +31,26 @@ def run_sim(spec):
                 w.write_row(row)
             buf.seek(0)
             wl = CSVWorkloadReader(buf).get_workload(full["ticks_per_second"])
-    rec = observed_run(params, wl)
+    if spec.get("via_toml"):
+        # the documented second entry: run_simulator(<path to a TOML parameter file>)
+        import os
+        d = os.path.join(os.environ.get("VERIF_HOME", "."), ".work", f"toml-{os.getpid()}")
+        os.makedirs(d, exist_ok=True)
+        path = os.path.join(d, "params.toml")
+        with open(path, "w") as f:
+            for k, v in params.items():
+                if isinstance(v, bool):
+                    f.write(f"{k} = {'true' if v else 'false'}\n")
+                elif isinstance(v, str):
+                    f.write(f'{k} = "{v}"\n')
+                else:
+                    f.write(f"{k} = {v!r}\n")
+        try:
+            rec = observed_run(path, wl)
+        finally:
+            os.remove(path)
+    else:
+        rec = observed_run(params, wl)
     return rec, params
 
 
